@@ -180,7 +180,7 @@ def check_case(case):
             flat_coarse, flat_fine = gr.make_resolver(cgsmiles, flat_case).resolve_all()
             # typed-in strings and regular polymers use unlabelled / repeated descriptors: when the first-match search
             # leaves a unit of order without a bond in either string, the two are not known to denote the same molecule
-            comparable = case['design'] == 'layered' and 'repeated-names' not in case['tags'] or \
+            comparable = case['design'] == 'layered' and 'repeated-names' not in case['tags'] or case.get('same_molecule') or \
                 (_fully_bonded(last_coarse, final_a) and _fully_bonded(flat_coarse, flat_fine))
             if comparable and not _iso(final_a, flat_fine, case['all_atom']):
                 fail('not-isomorphic-to-flat', 'layered result (%d nodes, %d edges) vs flat %s (%d nodes, %d edges)' % (
